@@ -99,7 +99,8 @@ def analyse(F, run, prop, rule, site, soft=False):
     col_ok = coord in idxs or (site == "bdf")
     if site == "bdf":
         # the column view comes from column_iter_mut().enumerate(): (ind, col) in lock-step
-        col_ok = coord == "ind" and name == "col"
+        # (or the matrix itself is written with `set_column(<coordinate>, …)`)
+        col_ok = (coord == "ind" and name == "col") or (coord in idxs and name != "col")
     run.check(col_ok, rule, path, "column=coordinate", F.loc(b, node),
               "derivative w.r.t. coordinate %s is stored at index %s of %s" % (coord, idxs, name), sample="∂/∂x[%s] stored at %s[%s]" % (coord, name, ",".join(idxs)))
     if site == "roots":
